@@ -14,9 +14,10 @@ PROP = {'module': 'GolibsVerif.Theorems.C01',
              'documented preconditions are respected by the argument generator: non-nil pointers, initialised DefaultStorage, '
              'AddrFamily in {IPv4, IPv6}'],
  'assumptions': ['functions whose only hazard is a documented-precondition panic (IPToAddr family argument) are total under that precondition',
-                 'entries in `pending` (IPNetToPrefix, IPNetToPrefixNoMapped) have tied models (C12) but no totality theorem restated here'],
+                 'ExtractReversedAddr totality uses the contract hDot (idna.ToASCII keeps a leading dot), shown necessary in Theorems/C05.lean'],
  'level_text': 'a regenerated inventory of every exported input-consuming function with its hazard sites, a kernel-checked coverage '
-               'obligation over that table, and totality theorems (never a Go panic, loops terminate) about the models of the '
-               'hazard-bearing functions; every inventory function is also fuzzed through reflection on every run',
- 'level_note': 'PARTIAL: inventory_covered_partial allows a `pending` list (2 entries: IPNetToPrefix, IPNetToPrefixNoMapped, whose only hazard is the '
-               'documented-precondition panic of IPToAddr on an invalid address family); trusted: Lean kernel, the inventory translator, the per-property correspondence checks that tie each model'}
+               'obligation over that table (inventory_covered: every hazard-bearing entry has a totality theorem), and totality theorems '
+               '(never a Go panic, loops terminate) about the models of all 30 hazard-bearing functions; every inventory function is '
+               'also fuzzed through reflection on every run',
+ 'level_note': 'full: no pending entries; trusted: Lean kernel, the inventory translator (hazards inside stdlib/idna callees are outside '
+               'it), the per-property correspondence checks that tie each model to the code'}
